@@ -14,6 +14,8 @@ import Mathlib.Algebra.Order.Field.Basic
 import VotelibModel.Threshold
 import VotelibModel.OpenList
 import VotelibModel.Simple
+import VotelibModel.Gen.Quota
+import VotelibProofs.Props.C09
 namespace VL.C16
 open VL
 
@@ -523,5 +525,368 @@ theorem openlist_overflow_by_list (cfg : OpenListCfg) (votes : Votes) (n : Nat) 
   simp only
   rw [if_pos hover, hlp]
   simp only [if_true, List.all_eq_true, List.contains_iff_mem]
+
+theorem jumpers_nodup (eq : Bool) (thr : Rat) (votes : Votes) (hwf : WF votes) :
+    (jumpers eq thr votes).Nodup := by
+  have h1 : ((sortDesc votes).map (·.1)).Nodup := ((sortDesc_perm votes).map _).nodup_iff.mpr hwf
+  exact h1.sublist (List.filter_sublist.map _)
+
+/-- the jumpers come by non-increasing votes -/
+theorem jumpers_sorted (eq : Bool) (thr : Rat) (votes : Votes) (hwf : WF votes) :
+    (jumpers eq thr votes).Pairwise (fun a b => getD votes b 0 ≤ getD votes a 0) := by
+  unfold jumpers
+  rw [List.pairwise_map]
+  have hd : Desc ((sortDesc votes).filter (fun p => passes eq thr p.2)) :=
+    List.Pairwise.sublist List.filter_sublist (sortDesc_desc votes)
+  refine (List.Pairwise.and_mem.mp hd).imp ?_
+  rintro a b ⟨ha, hb, hab⟩
+  have ha' := mem_sortDesc.mp (List.mem_filter.mp ha).1
+  have hb' := mem_sortDesc.mp (List.mem_filter.mp hb).1
+  rw [getD_of_mem hwf (c := a.1) (v := a.2) ha', getD_of_mem hwf (c := b.1) (v := b.2) hb']
+  exact hab
+
+theorem jumpers_sub_keys (eq : Bool) (thr : Rat) (votes : Votes) (c : Cand) (h : c ∈ jumpers eq thr votes) :
+    c ∈ keys votes := by
+  obtain ⟨v, hv, _⟩ := (mem_jumpers eq thr votes c).mp h
+  exact List.mem_map.mpr ⟨(c, v), hv, rfl⟩
+
+/-- **openlist_length_distinct.**  For a duplicate-free list that contains everybody who received votes, and
+    `n ≤` its length, the evaluator answers (whatever the configuration) with exactly `n` distinct list members. -/
+theorem openlist_length_distinct (cfg : OpenListCfg) (votes : Votes) (n : Nat) (clist : List Cand)
+    (hwf : WF votes) (hl : clist.Nodup) (hsub : ∀ c ∈ keys votes, c ∈ clist) (hn : n ≤ clist.length) :
+    ∃ r, thresholdOpenList cfg votes n clist = .ok r ∧ r.length = n ∧ r.Nodup ∧ ∀ c ∈ r, c ∈ clist := by
+  cases hthr : jumpThreshold cfg (sumVals votes) n with
+  | none =>
+    refine ⟨_, openlist_no_threshold cfg votes n clist hthr, ?_, hl.sublist (List.take_sublist _ _), ?_⟩
+    · rw [List.length_take]; omega
+    · intro c hc; exact List.mem_of_mem_take hc
+  | some thr =>
+    have hJn := jumpers_nodup cfg.acceptEqual thr votes hwf
+    have hJs : ∀ c ∈ jumpers cfg.acceptEqual thr votes, c ∈ clist :=
+      fun c hc => hsub c (jumpers_sub_keys _ _ _ c hc)
+    by_cases hfit : (jumpers cfg.acceptEqual thr votes).length ≤ n
+    · refine ⟨_, openlist_fill cfg votes n clist thr hthr hfit, ?_, ?_, ?_⟩
+      · rw [List.length_append, List.length_take, dedupKeep_of_nodup hl, length_filter_not_mem hl hJn hJs]
+        omega
+      · rw [dedupKeep_of_nodup hl]
+        refine List.nodup_append.mpr ⟨hJn, (hl.filter _).sublist (List.take_sublist _ _), ?_⟩
+        intro a ha b hb hab
+        have := (List.mem_filter.mp (List.mem_of_mem_take hb)).2
+        subst hab
+        simp [ha] at this
+      · intro c hc
+        rcases List.mem_append.mp hc with h | h
+        · exact hJs c h
+        · rw [dedupKeep_of_nodup hl] at h
+          exact (List.mem_filter.mp (List.mem_of_mem_take h)).1
+    · have hover : n < (jumpers cfg.acceptEqual thr votes).length := by omega
+      cases hlp : cfg.listPrecedence with
+      | false =>
+        refine ⟨_, openlist_overflow_by_votes cfg votes n clist thr hthr hover hlp, ?_,
+          hJn.sublist (List.take_sublist _ _), fun c hc => hJs c (List.mem_of_mem_take hc)⟩
+        rw [List.length_take]; omega
+      | true =>
+        refine ⟨_, by rw [openlist_overflow_by_list cfg votes n clist thr hthr hover hlp, if_pos hJs], ?_, ?_, ?_⟩
+        · rw [sortBy_length, List.length_take, sortBy_length]; omega
+        · exact sortBy_nodup ((sortBy_nodup hJn).sublist (List.take_sublist _ _))
+        · intro c hc
+          exact hJs c (mem_sortBy.mp (List.mem_of_mem_take (mem_sortBy.mp hc)))
+
+/-- **openlist_order.**  With a jump threshold configured, the seated candidates are: first candidates over the
+    threshold, by non-increasing votes; then candidates that did not reach it, all list members, in list order.
+    A candidate below the threshold is seated only if every jumper is. -/
+theorem openlist_order (cfg : OpenListCfg) (votes : Votes) (n : Nat) (clist : List Cand) (thr : Rat)
+    (r : List Cand) (hwf : WF votes) (hthr : jumpThreshold cfg (sumVals votes) n = some thr)
+    (h : thresholdOpenList cfg votes n clist = .ok r) :
+    ∃ js rest, r = js ++ rest ∧
+      (∀ c ∈ js, IsJumper cfg.acceptEqual thr votes c) ∧
+      (∀ c ∈ rest, ¬ IsJumper cfg.acceptEqual thr votes c ∧ c ∈ clist) ∧
+      js.Pairwise (fun a b => getD votes b 0 ≤ getD votes a 0) ∧
+      rest.Pairwise (fun a b => clist.idxOf a < clist.idxOf b) ∧
+      (rest ≠ [] → ∀ c, IsJumper cfg.acceptEqual thr votes c → c ∈ js) := by
+  have hJsorted := jumpers_sorted cfg.acceptEqual thr votes hwf
+  by_cases hfit : (jumpers cfg.acceptEqual thr votes).length ≤ n
+  · rw [openlist_fill cfg votes n clist thr hthr hfit] at h
+    have hr : r = _ := (Except.ok.inj h).symm
+    refine ⟨_, _, hr, fun c hc => (mem_jumpers _ _ _ c).mp hc, ?_, hJsorted, ?_,
+      fun _ c hc => (mem_jumpers _ _ _ c).mpr hc⟩
+    · intro c hc
+      have hm := List.mem_filter.mp (List.mem_of_mem_take hc)
+      refine ⟨fun hj => ?_, mem_dedupKeep.mp hm.1⟩
+      have := (mem_jumpers _ _ _ c).mpr hj
+      simp [this] at hm
+    · exact ((dedupKeep_pairwise_idxOf clist).sublist List.filter_sublist).sublist (List.take_sublist _ _)
+  · have hover : n < (jumpers cfg.acceptEqual thr votes).length := by omega
+    cases hlp : cfg.listPrecedence with
+    | false =>
+      rw [openlist_overflow_by_votes cfg votes n clist thr hthr hover hlp] at h
+      have hr : r = _ := (Except.ok.inj h).symm
+      refine ⟨_, [], by rw [hr, List.append_nil],
+        fun c hc => (mem_jumpers _ _ _ c).mp (List.mem_of_mem_take hc), by simp,
+        hJsorted.sublist (List.take_sublist _ _), List.Pairwise.nil, fun h => absurd rfl h⟩
+    | true =>
+      rw [openlist_overflow_by_list cfg votes n clist thr hthr hover hlp] at h
+      split at h
+      · have hr : r = _ := (Except.ok.inj h).symm
+        refine ⟨_, [], by rw [hr, List.append_nil],
+          fun c hc => (mem_jumpers _ _ _ c).mp (mem_sortBy.mp (List.mem_of_mem_take (mem_sortBy.mp hc))),
+          by simp, ?_, List.Pairwise.nil, fun h => absurd rfl h⟩
+        have := sortBy_sorted (fun a => - getD votes a 0)
+          (fun a b => decide (getD votes b 0 < getD votes a 0)) (by intro a b; simp)
+          ((sortBy (fun a b => decide (clist.idxOf a < clist.idxOf b)) (jumpers cfg.acceptEqual thr votes)).take n)
+        exact this.imp (fun hab => neg_le_neg_iff.mp hab)
+      · cases h
+
+/-- **openlist_no_pass_over.**  Nobody is passed over by a lower-listed colleague who did not reach the threshold:
+    if a seated candidate `c` is not a jumper (in particular whenever no threshold is configured), every list
+    member standing above `c` on the list is seated too. -/
+theorem openlist_no_pass_over (cfg : OpenListCfg) (votes : Votes) (n : Nat) (clist : List Cand) (r : List Cand)
+    (h : thresholdOpenList cfg votes n clist = .ok r) (c d : Cand) (hc : c ∈ r)
+    (hnj : ∀ thr, jumpThreshold cfg (sumVals votes) n = some thr → ¬ IsJumper cfg.acceptEqual thr votes c)
+    (hd : d ∈ clist) (hbefore : clist.idxOf d < clist.idxOf c) : d ∈ r := by
+  cases hthr : jumpThreshold cfg (sumVals votes) n with
+  | none =>
+    rw [openlist_no_threshold cfg votes n clist hthr] at h
+    have hr : r = _ := (Except.ok.inj h).symm
+    rw [hr] at hc ⊢
+    exact mem_take_of_idxOf_lt hd (lt_trans hbefore (idxOf_lt_of_mem_take hc))
+  | some thr =>
+    have hcj : c ∉ jumpers cfg.acceptEqual thr votes := fun hj => hnj thr hthr ((mem_jumpers _ _ _ c).mp hj)
+    by_cases hfit : (jumpers cfg.acceptEqual thr votes).length ≤ n
+    · rw [openlist_fill cfg votes n clist thr hthr hfit] at h
+      have hr : r = _ := (Except.ok.inj h).symm
+      rw [hr] at hc ⊢
+      rcases List.mem_append.mp hc with hc' | hc'
+      · exact absurd hc' hcj
+      · by_cases hdj : d ∈ jumpers cfg.acceptEqual thr votes
+        · exact List.mem_append_left _ hdj
+        · apply List.mem_append_right
+          refine mem_take_of_pairwise (R := fun a b => clist.idxOf a < clist.idxOf b)
+            (fun a b hab hba => absurd hab (not_lt.mpr (le_of_lt hba)))
+            ((dedupKeep_pairwise_idxOf clist).sublist List.filter_sublist) hc' ?_ hbefore
+          exact List.mem_filter.mpr ⟨mem_dedupKeep.mpr hd, by simpa using hdj⟩
+    · have hover : n < (jumpers cfg.acceptEqual thr votes).length := by omega
+      exfalso
+      cases hlp : cfg.listPrecedence with
+      | false =>
+        rw [openlist_overflow_by_votes cfg votes n clist thr hthr hover hlp] at h
+        have hr : r = _ := (Except.ok.inj h).symm
+        rw [hr] at hc
+        exact hcj (List.mem_of_mem_take hc)
+      | true =>
+        rw [openlist_overflow_by_list cfg votes n clist thr hthr hover hlp] at h
+        split at h
+        · have hr : r = _ := (Except.ok.inj h).symm
+          rw [hr] at hc
+          exact hcj (mem_sortBy.mp (List.mem_of_mem_take (mem_sortBy.mp hc)))
+        · cases h
+
+/-- more jumpers than seats, votes take precedence: exactly `n` jumpers are seated and no jumper left out has
+    more votes than a seated one -/
+theorem openlist_overflow_votes_best (cfg : OpenListCfg) (votes : Votes) (n : Nat) (clist : List Cand) (thr : Rat)
+    (r : List Cand) (hwf : WF votes) (hthr : jumpThreshold cfg (sumVals votes) n = some thr)
+    (hover : n < (jumpers cfg.acceptEqual thr votes).length) (hlp : cfg.listPrecedence = false)
+    (h : thresholdOpenList cfg votes n clist = .ok r) :
+    r.length = n ∧ (∀ a ∈ r, IsJumper cfg.acceptEqual thr votes a) ∧
+      ∀ a ∈ r, ∀ b, IsJumper cfg.acceptEqual thr votes b → b ∉ r → getD votes b 0 ≤ getD votes a 0 := by
+  rw [openlist_overflow_by_votes cfg votes n clist thr hthr hover hlp] at h
+  have hr : r = _ := (Except.ok.inj h).symm
+  subst hr
+  refine ⟨by rw [List.length_take]; omega, fun a ha => (mem_jumpers _ _ _ a).mp (List.mem_of_mem_take ha), ?_⟩
+  intro a ha b hb hbr
+  have hbJ := (mem_jumpers _ _ _ b).mpr hb
+  have hs := jumpers_sorted cfg.acceptEqual thr votes hwf
+  rw [← List.take_append_drop n (jumpers cfg.acceptEqual thr votes)] at hs hbJ
+  rcases List.mem_append.mp hbJ with h1 | h1
+  · exact absurd h1 hbr
+  · exact (List.pairwise_append.mp hs).2.2 a ha b h1
+
+/-- more jumpers than seats, the list takes precedence: exactly `n` jumpers are seated and every jumper left out
+    stands lower on the list than every seated one -/
+theorem openlist_overflow_list_best (cfg : OpenListCfg) (votes : Votes) (n : Nat) (clist : List Cand) (thr : Rat)
+    (r : List Cand) (hthr : jumpThreshold cfg (sumVals votes) n = some thr)
+    (hover : n < (jumpers cfg.acceptEqual thr votes).length) (hlp : cfg.listPrecedence = true)
+    (h : thresholdOpenList cfg votes n clist = .ok r) :
+    r.length = n ∧ (∀ a ∈ r, IsJumper cfg.acceptEqual thr votes a) ∧
+      ∀ a ∈ r, ∀ b, IsJumper cfg.acceptEqual thr votes b → b ∉ r → clist.idxOf a < clist.idxOf b := by
+  rw [openlist_overflow_by_list cfg votes n clist thr hthr hover hlp] at h
+  split at h
+  · rename_i hall
+    have hr : r = _ := (Except.ok.inj h).symm
+    subst hr
+    refine ⟨by rw [sortBy_length, List.length_take, sortBy_length]; omega,
+      fun a ha => (mem_jumpers _ _ _ a).mp (mem_sortBy.mp (List.mem_of_mem_take (mem_sortBy.mp ha))), ?_⟩
+    intro a ha b hb hbr
+    have ha' := mem_sortBy.mp ha
+    have hbJ := (mem_jumpers _ _ _ b).mpr hb
+    have hbS : b ∈ sortBy (fun a b => decide (clist.idxOf a < clist.idxOf b)) (jumpers cfg.acceptEqual thr votes) :=
+      mem_sortBy.mpr hbJ
+    have hs := sortBy_sorted (fun a => clist.idxOf a) (fun a b => decide (clist.idxOf a < clist.idxOf b))
+      (by intro a b; simp) (jumpers cfg.acceptEqual thr votes)
+    rw [← List.take_append_drop n (sortBy _ (jumpers cfg.acceptEqual thr votes))] at hs hbS
+    rcases List.mem_append.mp hbS with h1 | h1
+    · exact absurd (mem_sortBy.mpr h1) hbr
+    · have hle := (List.pairwise_append.mp hs).2.2 a ha' b h1
+      have haJ : a ∈ clist := hall a (mem_sortBy.mp (List.mem_of_mem_take ha'))
+      have hne : a ≠ b := fun e => hbr (e ▸ ha)
+      exact lt_of_le_of_ne hle (fun e => hne ((List.idxOf_inj haJ).mp e))
+  · cases h
+
+/-! ## ListOrderTieBreaker / Tie.break_by_list -/
+
+/-- **list_tiebreak_only_tied (break_by_list).**  Breaking ties by the list changes nothing but the tie places:
+    the result has the same length, an untied place keeps its candidate, and a tie place receives one of the
+    candidates tied there (`Resolves`). -/
+theorem break_by_list_only_tied (elected : List Slot) (breaker : List Cand) (r : List Cand)
+    (h : breakByList elected breaker = .ok r) : List.Forall₂ Resolves elected r :=
+  breakLoop_resolves breaker elected [] r (by intro e he; cases he) h
+
+/-- the wrapper: without a tie the inner result is returned as it is; with ties every place is resolved in place -/
+theorem list_tiebreak_only_tied (inner : Votes → Nat → Except Err (List Slot)) (votes : Votes) (n : Nat)
+    (clist : List Cand) (res out : List Slot) (hi : inner votes n = .ok res)
+    (h : listOrderTieBreaker inner votes n clist = .ok out) :
+    List.Forall₂ (fun s o => match s with
+      | .cand c => o = .cand c
+      | .tie t => ∃ c ∈ t, o = .cand c) res out := by
+  unfold listOrderTieBreaker at h
+  simp only [hi, bind, Except.bind] at h
+  split at h
+  · rename_i hany0
+    split at h
+    · cases h
+    · rename_i broken hb
+      have hout : out = broken.map Slot.cand := by cases h; rfl
+      have hf := break_by_list_only_tied res clist broken hb
+      rw [hout]
+      clear hb h hout hi hany0
+      induction hf with
+      | nil => exact List.Forall₂.nil
+      | @cons s c ss cs h1 _ ih =>
+        refine List.Forall₂.cons ?_ ih
+        cases s with
+        | cand c' => simp only [Resolves] at h1; rw [h1]
+        | tie t => exact ⟨c, h1, rfl⟩
+  · rename_i hany
+    have hout : out = res := by cases h; rfl
+    rw [hout]
+    clear h hout hi
+    induction res with
+    | nil => exact List.Forall₂.nil
+    | cons s ss ih =>
+      have hs : s.isTie = false ∧ ss.any Slot.isTie = false := by
+        simpa [List.any_cons] using hany
+      refine List.Forall₂.cons ?_ (ih (by simp [hs.2]))
+      cases s with
+      | cand c => rfl
+      | tie t => simp [Slot.isTie] at hs
+
+/-- **The shape selectors produce** (`get_n_best`): untied winners followed by `k` places of one tie.  The tie
+    places go to the `k` tied candidates standing highest on the list, in list order; nobody else moves. -/
+theorem break_by_list_nbest (pre : List Cand) (t : List Cand) (k : Nat) (breaker : List Cand)
+    (hall : ∀ c ∈ t, c ∈ breaker) (hk : k ≤ (dedupKeep t).length) :
+    breakByList (pre.map Slot.cand ++ List.replicate k (Slot.tie t)) breaker =
+      .ok (pre ++ (sortByIndex breaker t).take k) := by
+  unfold breakByList
+  rw [breakLoop_cands, breakLoop_replicate_new breaker t k [] rfl hall
+    (by unfold sortByIndex; rw [sortBy_length]; exact hk)]
+
+/-- `sorted(tie, key=list.index)`: the tied candidates, each once, by increasing list position -/
+theorem sortByIndex_spec (breaker t : List Cand) :
+    (sortByIndex breaker t).Perm (dedupKeep t) ∧
+    (sortByIndex breaker t).Pairwise (fun a b => breaker.idxOf a ≤ breaker.idxOf b) :=
+  ⟨sortBy_perm _ _, sortBy_sorted (fun a => breaker.idxOf a) _ (by intro a b; simp) _⟩
+
+/-- **Plurality with list tie-break, boundary tie.**  When the candidates level with the n-th total do not all
+    fit, the result is: everybody strictly above (by votes), then the level candidates standing highest on the
+    list, in list order, as many as seats remain.  (Together with VL.C09.getNBest_fits — no tie, nothing changes —
+    the list order decides only among tied candidates.) -/
+theorem list_tiebreak_plurality_tie (votes : Votes) (n : Nat) (clist : List Cand) (hwf : WF votes)
+    (h1 : 1 ≤ n) (hlen : n < votes.length) (t : Rat) (ht : IsNth votes n t) (hno : n < cntGe votes t)
+    (hall : ∀ c ∈ level votes t, c ∈ clist) :
+    listOrderTieBreaker (fun v k => .ok (plurality v k)) votes n clist =
+      .ok (((aboveSorted votes t).map (·.1) ++ (sortByIndex clist (level votes t)).take (n - cntGt votes t)).map
+        Slot.cand) := by
+  have hres := VL.C09.getNBest_tie votes n h1 hlen t ht hno
+  have hpos : 0 < n - cntGt votes t := by have := ht.2.1; omega
+  have hlevel_nodup : (level votes t).Nodup := by
+    unfold level
+    have : (keys votes).Nodup := hwf
+    exact (List.Nodup.sublist (List.filter_sublist.map _) this)
+  have hk : n - cntGt votes t ≤ (dedupKeep (level votes t)).length := by
+    rw [dedupKeep_of_nodup hlevel_nodup]
+    have := cntGe_eq_cntGt_add_level votes t
+    omega
+  unfold listOrderTieBreaker
+  simp only [plurality, bind, Except.bind, hres]
+  have hany : (List.map (fun p => Slot.cand p.1) (aboveSorted votes t) ++
+      List.replicate (n - cntGt votes t) (Slot.tie (level votes t))).any Slot.isTie = true := by
+    rw [List.any_append]
+    have : (List.replicate (n - cntGt votes t) (Slot.tie (level votes t))).any Slot.isTie = true := by
+      obtain ⟨m, hm⟩ := Nat.exists_eq_succ_of_ne_zero (Nat.pos_iff_ne_zero.mp hpos)
+      rw [hm, List.replicate_succ, List.any_cons]
+      simp [Slot.isTie]
+    simp [this]
+  rw [if_pos hany]
+  have hmap : List.map (fun p => Slot.cand p.1) (aboveSorted votes t) =
+      ((aboveSorted votes t).map (·.1)).map Slot.cand := by
+    simp [List.map_map, Function.comp_def]
+  rw [hmap, break_by_list_nbest _ _ _ clist hall hk]
+  rfl
+
+/-! ## non-vacuity: concrete boundary inputs meeting the hypotheses, and what the model answers on them -/
+
+-- a party with exactly 5 of 100 votes and a 5 % threshold (the input the repaired defect c511ac9 got wrong)
+example : sumVals [(0,5),(1,95)] ≠ 0 := by decide +kernel
+example : relativeThreshold (1/20) true [(0,5),(1,95)] = .ok [1, 0] := by decide +kernel
+example : relativeThreshold (1/20) false [(0,5),(1,95)] = .ok [1] := by decide +kernel
+example : relativeThreshold (1/20) true [(0,(5:Rat)/2),(1,(95:Rat)/2)] = .ok [1, 0] := by decide +kernel
+example : relativeThreshold (1/20) true [(0,0),(1,0)] = .error (.other "ZeroDivisionError") := by decide +kernel
+example : absoluteThreshold 5 true [(0,5),(1,95),(2,4)] = [1, 0] := by decide +kernel
+example : absoluteThreshold 5 false [(0,5),(1,95),(2,4)] = [1] := by decide +kernel
+-- alternatives: 5 % of the vote or at least 50 votes
+example : alternativeThresholds [fun v => .ok (absoluteThreshold 50 true v), relativeThreshold (1/20) true]
+    [(0,5),(1,95),(2,0)] = .ok [1, 0] := by decide +kernel
+-- a 10 % bar for two-party coalitions, 5 % for everybody else
+example : coalitionBracketer (fun c => if c = 0 then 2 else 1) [(2, relativeThreshold (1/10) true)]
+    (relativeThreshold (1/20) true) [(0,5),(1,90),(2,5)] = .ok [1, 2] := by decide +kernel
+-- minority parties (property value 1) are exempt
+example : propertyBracketer (fun c => if c = 2 then some 1 else none) [(1, none)]
+    (some (relativeThreshold (1/20) false)) [(0,5),(1,93),(2,2)] = .ok [1, 2] := by decide +kernel
+-- the selector tree runs the same functions
+example : Sel.run ⟨fun _ => 1, fun _ => none⟩ 8 (.alt [.abs 50 true, .rel (1/20) true]) [(0,5),(1,95),(2,0)] []
+    = .ok [1, 0] := by decide +kernel
+-- Hare quota by name with the default quota fraction (the input the repaired defect 699592a crashed on)
+example : thresholdOpenList ⟨none, some Gen.Quota.hare, 1, false, false, false⟩ [(0,10),(1,20),(2,70)] 2 [0,1,2]
+    = .ok [2, 0] := by decide +kernel
+-- exactly on half a Hare quota (25 of 100, two seats), equality accepted / not accepted
+example : thresholdOpenList ⟨none, some Gen.Quota.hare, 1/2, false, true, false⟩ [(0,10),(1,25),(2,65)] 2 [0,1,2]
+    = .ok [2, 1] := by decide +kernel
+example : thresholdOpenList ⟨none, some Gen.Quota.hare, 1/2, false, false, false⟩ [(0,10),(1,25),(2,65)] 2 [0,1,2]
+    = .ok [2, 0] := by decide +kernel
+-- more jumpers than seats: by votes, or by list position
+example : thresholdOpenList ⟨some (1/10), none, 1, false, true, false⟩ [(0,20),(1,30),(2,50)] 2 [0,1,2]
+    = .ok [2, 1] := by decide +kernel
+example : thresholdOpenList ⟨some (1/10), none, 1, false, true, true⟩ [(0,20),(1,30),(2,50)] 2 [0,1,2]
+    = .ok [1, 0] := by decide +kernel
+-- the hypotheses of openlist_length_distinct / openlist_order on that input
+example : WF [(0,10),(1,25),(2,65)] ∧ [0,1,2].Nodup ∧ (∀ c ∈ keys [(0,10),(1,25),(2,65)], c ∈ [0,1,2]) := by
+  unfold WF; decide +kernel
+example : jumpThreshold ⟨none, some Gen.Quota.hare, 1/2, false, true, false⟩ (sumVals [(0,10),(1,25),(2,65)]) 2
+    = some 25 := by decide +kernel
+-- quota selector: Droop quota of 100 votes for 2 seats is 34; a candidate exactly on it
+example : (List.filter (fun p => passes true (Gen.Quota.droop (sumVals [(0,34),(1,40),(2,26)]) 2) p.2)
+    [(0,34),(1,40),(2,26)]).length ≤ 2 := by decide +kernel
+example : quotaSelector Gen.Quota.droop true .error [(0,34),(1,40),(2,26)] 2 = .ok [.cand 1, .cand 0] := by
+  decide +kernel
+example : quotaSelector Gen.Quota.droop false .error [(0,34),(1,40),(2,26)] 2 = .ok [.cand 1] := by
+  decide +kernel
+-- list tie-break: 2 and 3 are tied for the second seat, 3 stands higher on the list
+example : IsNth [(1,5),(2,3),(3,3),(4,1)] 2 3 := by
+  refine ⟨⟨(2,3), by simp, rfl⟩, ?_, ?_⟩ <;> decide +kernel
+example : WF [(1,5),(2,3),(3,3),(4,1)] ∧ 2 < cntGe [(1,5),(2,3),(3,3),(4,1)] 3 ∧
+    (∀ c ∈ level [(1,5),(2,3),(3,3),(4,1)] 3, c ∈ [4,3,2,1]) := by unfold WF; decide +kernel
+example : listOrderTieBreaker (fun v k => .ok (plurality v k)) [(1,5),(2,3),(3,3),(4,1)] 2 [4,3,2,1]
+    = .ok [.cand 1, .cand 3] := by decide +kernel
+example : breakByList [.cand 7, .tie [1,2,3], .tie [3,2,1]] [3,1,2] = .ok [7, 3, 1] := by decide +kernel
 
 end VL.C16
